@@ -58,6 +58,24 @@ func (r R) U8() uint8 {
 
 var monthEnds = [][2]int{{1, 31}, {2, 28}, {2, 29}, {3, 1}, {3, 31}, {4, 30}, {12, 31}, {1, 1}, {1, 2}, {6, 30}, {9, 30}, {10, 10}, {11, 30}, {9, 9}, {9, 8}}
 
+// DayFilter, when set, says whether a calendar day exists in the process time zone: days that a zone skipped entirely (2011-12-30
+// in Pacific/Apia, 1844-12-31 in Asia/Manila or Pacific/Kosrae) are outside the domain of every date property and are never generated.
+var DayFilter func(y, m, d int) bool
+
+// SysDate returns a controller system date (two digit year: 2000..2068).
+func (r R) SysDate() rm.Val {
+	for {
+		d := r.Date()
+		d.Y = 2000 + r.Pick(69)
+		if d.D > rm.DaysIn(d.Y, d.Mo) {
+			d.D = rm.DaysIn(d.Y, d.Mo)
+		}
+		if DayFilter == nil || DayFilter(d.Y, d.Mo, d.D) {
+			return rm.Val{K: rm.SysDate, Y: d.Y, Mo: d.Mo, D: d.D}
+		}
+	}
+}
+
 // Date returns an in-domain calendar date 0001-01-02..9999-12-31.
 func (r R) Date() rm.Val {
 	for {
@@ -77,7 +95,7 @@ func (r R) Date() rm.Val {
 		default:
 			y, m, d = 1+r.Pick(9999), 1+r.Pick(12), 1+r.Pick(31)
 		}
-		if rm.ValidDate(y, m, d) && !(y == 1 && m == 1 && d == 1) {
+		if rm.ValidDate(y, m, d) && !(y == 1 && m == 1 && d == 1) && (DayFilter == nil || DayFilter(y, m, d)) {
 			return rm.DateVal(y, m, d)
 		}
 	}
